@@ -320,7 +320,7 @@ def console(tier, rng):
         t = test(setup=[":c"], body=[st(k1), ":c"], teardown=[":n", st(k2)], pre=[7] if k1 == k2 else [], post=[9] if k1 == "x" else [])
         out.append(scn([t, PASS()], cli=1, io=next(sep_mode)))
     # random programs
-    n = 60 if tier == "quick" else 2500
+    n = 60 if tier == "quick" else 1000
     for _ in range(n):
         nt = rng.choice([0, 1, 2, 3, 5, 8, 13, 20])
         pfail = rng.choice([0.0, 0.15, 0.3, 0.6, 0.9])
@@ -334,7 +334,7 @@ def console(tier, rng):
             for sink in (1, 2):
                 for sep in (0, 1):
                     for (v, c) in ((0, 0), (1, 0), (0, 1), (1, 1)):
-                        for cap in (1, 0x40, 0x1000, 0x10000):
+                        for cap in (1, 0x40, 0x1000):
                             out.append(scn([PASS(), failing_test(kind, phase, rng), failing_test(rng.choice(KINDS), rng.randrange(3), rng)],
                                            cli=1, repeat=rng.choice([1, 1, 2]), io=(sink, sep, v, c, cap)))
     return out
